@@ -6,6 +6,10 @@ use mini_mcmc::stats::{collect_rhat, ChainStats, ChainTracker, MultiChainTracker
 use ndarray::Array1;
 use serde_json::json;
 
+fn fx64(x: f64, bits: u32) -> i64 {
+    let v = x * (1u64 << bits) as f64;
+    if v.is_nan() { -999_999 } else { v.round().clamp(-1e9, 1e9) as i64 }
+}
 fn fx(x: f32, bits: u32) -> i64 {
     let v = (x as f64) * (1u64 << bits) as f64;
     if v.is_nan() { -999_999 } else { v.round().clamp(-1e9, 1e9) as i64 }
@@ -76,6 +80,49 @@ pub fn replay(args: &[String]) {
                 }
             }
         }
+        // the same history lived 4000 units away from the origin: variances and R-hat do not depend on the location
+        // (f32 trackers: compared at the accuracy a running f32 mean at that location allows)
+        let shifted = catch(|| {
+            let mut trackers: Vec<ChainTracker> = (0..nc).map(|_| ChainTracker::new(np, &vec![4000i32; np])).collect();
+            let mut multi = MultiChainTracker::new(nc, np);
+            for round in &hist {
+                for (ci, st) in round.iter().enumerate() {
+                    let x: Vec<f64> = st.iter().map(|v| (*v + 4000) as f64).collect();
+                    trackers[ci].step(&x).unwrap();
+                }
+                let flat: Vec<f32> = round.iter().flatten().map(|v| (*v + 4000) as f32).collect();
+                multi.step(&flat).unwrap();
+            }
+            let stats: Vec<ChainStats> = trackers.iter().map(|t| t.stats()).collect();
+            let refs: Vec<&ChainStats> = stats.iter().collect();
+            (stats.clone(), collect_rhat(&refs), multi.rhat().unwrap())
+        });
+        evals += 1;
+        match shifted {
+            Err(e) => why.push(format!("shifted by 4000: panic {e}")),
+            Ok((stats, cr, mr)) => {
+                for ci in 0..nc {
+                    for k in 0..np {
+                        let var = (nf * q[ci][k] as f64 - (s[ci][k] * s[ci][k]) as f64) / (nf * (nf - 1.0));
+                        if !((stats[ci].sm2[k] as f64 - var).abs() <= 0.05) {
+                            why.push(format!("shifted by 4000: chain {ci} param {k}: variance {} expected {var}", stats[ci].sm2[k]));
+                        }
+                    }
+                }
+                for k in 0..np {
+                    if c["wn"][k].as_i64().unwrap() > 0 {
+                        let e = c["rn"][k].as_i64().unwrap() as f64 / c["rd"][k].as_i64().unwrap() as f64;
+                        for (name, v) in [("collect_rhat", cr[k]), ("MultiChainTracker::rhat", mr[k])] {
+                            let r2 = (v as f64).powi(2);
+                            if !((r2 - e).abs() <= 5e-2 * e.max(1.0)) {
+                                why.push(format!("shifted by 4000: param {k}: {name} = {v} (squared {r2}), expected squared {e}"));
+                            }
+                        }
+                    }
+                }
+            }
+        }
+        why.truncate(6);
         if !why.is_empty() && bad.len() < 20 {
             bad.push(json!({"hist": c["hist"], "why": why}));
         }
@@ -126,14 +173,18 @@ pub fn record(args: &[String]) {
         let steps = if c < 3 { steps_long } else { steps_short };
         let np = 1 + (splitmix(&mut s) % 4) as usize + if c == 1 { 4 } else { 0 };
         let stick = [2u64, 5, 20, 1][(c % 4) as usize]; // how often the state stays (rejections)
+        // every fourth chain (the f32 one among the long ones, c = 2; c = 6, ...) lives far from the origin
+        let off: i64 = if c % 4 == 2 { 4000 } else { 0 };
         // the initial state is NOT a fed draw: every third chain starts far away from everything it is fed afterwards
         let far = if c % 3 == 2 { 3000 + 500 * c as i64 } else { 0 };
         let x0: Vec<i64> = (0..np).map(|_| (splitmix(&mut s) % 8) as i64 + far).collect();
-        out.push(&json!({"e": "new", "P": np, "x0": x0, "ty": (["f64", "i32", "f32", "usize"][(c % 4) as usize])}));
+        // spacing of f32 numbers at the chain's location, in units of 2^-12 (0 near the origin: covered by the base budget)
+        let mslack: i64 = if off == 0 { 0 } else { ((f32::from_bits((off as f32).to_bits() + 1) - off as f32) as f64 * 4096.0).ceil() as i64 };
+        out.push(&json!({"e": "new", "P": np, "x0": x0, "mslack": mslack, "ty": (["f64", "i32", "f32", "usize"][(c % 4) as usize])}));
         let mut cur = x0.clone();
         macro_rules! run {
             ($t:ty) => {{
-                let init: Vec<$t> = x0.iter().map(|v| *v as $t).collect();
+                let init: Vec<$t> = x0.iter().map(|v| (*v + off) as $t).collect();
                 let mut tr = ChainTracker::new(np, &init);
                 for _ in 0..steps {
                     if splitmix(&mut s) % stick == 0 || stick == 1 || cur.iter().any(|v| *v > 7) {
@@ -148,14 +199,17 @@ pub fn record(args: &[String]) {
                         cur[k] = (splitmix(&mut s) % 8) as i64;
                         moved += 1;
                     }
-                    let x: Vec<$t> = cur.iter().map(|v| *v as $t).collect();
+                    // `off`: where on the number line the chain lives.  The tracker is fed off + cur; the trace carries the
+                    // values and the reported mean RELATIVE to off (mean and variance are shift-equivariant / invariant), so
+                    // that the specification's integers stay small
+                    let x: Vec<$t> = cur.iter().map(|v| (*v + off) as $t).collect();
                     if let Err(e) = catch(|| tr.step(&x).unwrap()) {
                         out.push(&json!({"e": "panic", "msg": e}));
                         break;
                     }
                     let st = tr.stats();
                     out.push(&json!({"e": "upd", "x": cur, "n": st.n,
-                        "mean": st.mean.iter().map(|m| fx(*m, 12)).collect::<Vec<_>>(),
+                        "mean": st.mean.iter().map(|m| fx64(*m as f64 - off as f64, 12)).collect::<Vec<_>>(),
                         "var": if st.n >= 2 { st.sm2.iter().map(|m| fx(*m, 12)).collect::<Vec<_>>() } else { vec![] },
                         "p": fx(st.p_accept, 20)}));
                 }
